@@ -1,6 +1,6 @@
 (** C13 — lemmas and invariants: the code's bookkeeping (epoch number - skipped epochs - EPP*period)
     refines the closed-form schedule. *)
-From Coq Require Import ZArith List Bool Lia.
+From Coq Require Import String ZArith List Bool Lia.
 Import ListNotations.
 Require Import Nib.Lib.Dec Nib.C13.Model Nib.C13.Spec Nib.C13.Check Nib.C13.Arith.
 Local Open Scope Z_scope.
@@ -15,19 +15,20 @@ Definition R (E M : Z) (s : st) (e c : Z) : Prop :=
   (p_enabled p = true -> p_started p = true) /\
   0 <= peek (s_skipped s) /\ c = e - peek (s_skipped s) - 1 /\ 0 <= c /\
   peek (s_period s) = Z.min (c / E) M /\
-  (p_started p = false -> c = 0).
+  (p_started p = false -> c = 0) /\
+  operable (s_root s) = true.
 
 Lemma Consistent_R s e :
-  Consistent s e -> s_module s = 0 -> 0 <= peek (s_skipped s) ->
+  Consistent s e -> s_module s = 0 -> 0 <= peek (s_skipped s) -> operable (s_root s) = true ->
   R (p_epp (s_params s)) (p_max (s_params s)) s e (n_of s e - 1).
 Proof.
-  intros [C1 [C2 [C3 C4]]] Hm Hk. unfold R, n_of in *. repeat split; auto; try lia.
+  intros [C1 [C2 [C3 C4]]] Hm Hk Ho. unfold R, n_of in *. repeat split; auto; try lia.
   intro X. specialize (C4 X). lia.
 Qed.
 
 Lemma R_Consistent E M s e c : R E M s e c -> Consistent s e /\ c = n_of s e - 1.
 Proof.
-  intros [R1 [R2 [R3 [R4 [R5 [R6 [R7 [R8 R9]]]]]]]]. unfold Consistent, n_of. subst E M.
+  intros [R1 [R2 [R3 [R4 [R5 [R6 [R7 [R8 [R9 R10]]]]]]]]]. unfold Consistent, n_of. subst E M.
   replace (e - peek (s_skipped s) - 1) with c by lia.
   repeat split; auto; try lia. intro X. specialize (R9 X). lia.
 Qed.
@@ -53,18 +54,18 @@ Proof.
   rewrite !orb_true_r. reflexivity.
 Qed.
 
-Lemma enabled_day E M s e c :
-  small E M -> R E M s e c -> 0 <= e < two62 ->
+Lemma enabled_day BL E M s e c :
+  wiring_ok BL -> small E M -> R E M s e c -> 0 <= e < two62 ->
   p_enabled (s_params s) = true -> prov_ok (s_params s) c -> dist_ok (s_params s) ->
-  view_of (snd (after_epoch_end false s true e)) = snd (spec_step {| q_params := s_params s; q_c := c |} (EpochEnd true e)) /\
-  R E M (fst (after_epoch_end false s true e)) (e + 1) (c + 1) /\
-  s_params (fst (after_epoch_end false s true e)) = s_params s.
+  view_of (snd (after_epoch_end BL false s true e)) = snd (spec_step {| q_params := s_params s; q_c := c |} (EpochEnd true e)) /\
+  R E M (fst (after_epoch_end BL false s true e)) (e + 1) (c + 1) /\
+  s_params (fst (after_epoch_end BL false s true e)) = s_params s.
 Proof.
-  intros [HE [HM HEM]] [R1 [R2 [R3 [R4 [R5 [R6 [R7 [R8 R9]]]]]]]] He Hen Hpo Hd.
+  intros HW [HE [HM HEM]] [R1 [R2 [R3 [R4 [R5 [R6 [R7 [R8 [R9 R10]]]]]]]]] He Hen Hpo Hd.
   destruct two62_lt as [T1 [T2 T3]].
   set (p := s_params s) in *. set (k := peek (s_skipped s)) in *.
   assert (Hst : p_started p = true) by auto.
-  unfold after_epoch_end, spec_step. cbn [negb q_params q_c]. fold p. rewrite Hen. cbn [negb].
+  unfold after_epoch_end. rewrite (HW _ R10). cbn [negb]. unfold epoch_end, spec_step. cbn [negb q_params q_c]. fold p. rewrite Hen. cbn [negb].
   rewrite R8. unfold prov_ok in Hpo. rewrite R1, R2 in Hpo.
   pose proof (Z.div_pos c E R7 HE) as Hdiv.
   assert (HcE : c / E * E <= c) by (rewrite Z.mul_comm; apply Z.mul_div_le; lia).
@@ -122,15 +123,15 @@ Qed.
 
 (* ---------------------------------------------------------------- a day epoch ends while inflation is disabled *)
 
-Lemma disabled_day zp E M s e c :
+Lemma disabled_day BL zp E M s e c :
   small E M -> R E M s e c -> 0 <= e < two62 -> p_enabled (s_params s) = false ->
-  view_of (snd (after_epoch_end zp s true e)) = snd (spec_step {| q_params := s_params s; q_c := c |} (EpochEnd true e)) /\
-  R E M (fst (after_epoch_end zp s true e)) (e + 1) c /\
-  s_params (fst (after_epoch_end zp s true e)) = s_params s.
+  view_of (snd (after_epoch_end BL zp s true e)) = snd (spec_step {| q_params := s_params s; q_c := c |} (EpochEnd true e)) /\
+  R E M (fst (after_epoch_end BL zp s true e)) (e + 1) c /\
+  s_params (fst (after_epoch_end BL zp s true e)) = s_params s.
 Proof.
-  intros [HE [HM HEM]] [R1 [R2 [R3 [R4 [R5 [R6 [R7 [R8 R9]]]]]]]] He Hen.
+  intros [HE [HM HEM]] [R1 [R2 [R3 [R4 [R5 [R6 [R7 [R8 [R9 R10]]]]]]]]] He Hen.
   destruct two62_lt as [T1 [T2 T3]].
-  unfold after_epoch_end, spec_step. cbn [negb q_params q_c]. rewrite Hen. cbn [negb fst snd].
+  unfold after_epoch_end, epoch_end, spec_step. cbn [negb q_params q_c]. rewrite Hen. cbn [negb fst snd].
   destruct (p_started (s_params s)) eqn:Hst; cbn [negb].
   - (* started before: one more skipped epoch, the position does not move *)
     rewrite wrap_small by (rewrite <- T2, <- T1; lia).
@@ -159,25 +160,25 @@ Lemma R_set_params E M s e c p' :
   (p_enabled p' = true -> p_started p' = true) -> (p_started p' = false -> p_started (s_params s) = false) ->
   R E M (set_params s p') e c.
 Proof.
-  intros [R1 [R2 [R3 [R4 [R5 [R6 [R7 [R8 R9]]]]]]]] A B C D. unfold R. cbn [set_params s_params s_module s_period s_skipped].
+  intros [R1 [R2 [R3 [R4 [R5 [R6 [R7 [R8 [R9 R10]]]]]]]]] A B C D. unfold R. cbn [set_params s_params s_module s_period s_skipped].
   repeat split; auto.
 Qed.
 
-Lemma step_refines E M s e c o :
-  small E M -> R E M s e c -> hist_ok E M (s_params s) c e [o] ->
-  view_of (snd (step false s o)) = snd (spec_step {| q_params := s_params s; q_c := c |} o) /\
-  R E M (fst (step false s o)) (next_e o e) (next_c (s_params s) o c) /\
-  s_params (fst (step false s o)) = next_params (s_params s) o.
+Lemma step_refines BL E M s e c o :
+  wiring_ok BL -> small E M -> R E M s e c -> hist_ok E M (s_params s) c e [o] ->
+  view_of (snd (step BL false s o)) = snd (spec_step {| q_params := s_params s; q_c := c |} o) /\
+  R E M (fst (step BL false s o)) (next_e o e) (next_c (s_params s) o c) /\
+  s_params (fst (step BL false s o)) = next_params (s_params s) o.
 Proof.
-  intros Hs HR Hh. pose proof HR as [R1 [R2 [R3 [R4 [R5 [R6 [R7 [R8 R9]]]]]]]].
+  intros HW Hs HR Hh. pose proof HR as [R1 [R2 [R3 [R4 [R5 [R6 [R7 [R8 [R9 R10]]]]]]]]].
   assert (Hq : peek (s_period s) = sched_period (s_params s) c) by (unfold sched_period; rewrite R1, R2; exact R8).
-  destruct o as [day e'|auth b|auth ed|amt]; cbn [step next_e next_c next_params].
+  destruct o as [day e'|auth b|auth ed|amt|auth rt]; cbn [step next_e next_c next_params].
   - destruct day.
     + cbn [hist_ok] in Hh. destruct Hh as [-> [He [Hen _]]].
       destruct (p_enabled (s_params s)) eqn:En.
       * destruct (Hen eq_refl) as [Hpo Hd]. apply enabled_day; auto.
       * apply disabled_day; auto.
-    + unfold after_epoch_end. cbn [negb fst snd spec_step].
+    + unfold after_epoch_end, epoch_end. cbn [negb fst snd spec_step].
       split; [apply view_quiet; auto|]. split; [exact HR|reflexivity].
   - cbn [hist_ok next_params] in Hh. destruct auth.
     + destruct Hh as [H1 [H2 _]]. cbn [fst snd spec_step].
@@ -199,13 +200,20 @@ Proof.
       unfold sched_period. rewrite Q1, Q2. exact Q8.
     + split; [apply view_quiet; auto|]. split; [exact HR|reflexivity].
   - cbn [hist_ok] in Hh. contradiction.
+  - (* MsgChangeRoot: only the recipient of the strategic reserve changes — to an operable account *)
+    cbn [hist_ok] in Hh. destruct Hh as [Ho _]. destruct auth; cbn [fst snd spec_step].
+    + assert (HR' : R E M (set_root s rt) e c).
+      { unfold R. cbn [set_root s_params s_module s_period s_skipped s_root]. repeat split; auto. }
+      split; [|split; [exact HR'|reflexivity]].
+      apply (view_quiet true (set_root s rt) c); [exact R3|exact Hq].
+    + split; [apply view_quiet; auto|]. split; [exact HR|reflexivity].
 Qed.
 
 (* ---------------------------------------------------------------- histories *)
 
-Lemma run_cons zp s o r :
-  run zp s (o :: r) = (fst (run zp (fst (step zp s o)) r), snd (step zp s o) :: snd (run zp (fst (step zp s o)) r)).
-Proof. cbn [run]. destruct (step zp s o) as [s1 x]. cbn [fst snd]. destruct (run zp s1 r). reflexivity. Qed.
+Lemma run_cons BL zp s o r :
+  run BL zp s (o :: r) = (fst (run BL zp (fst (step BL zp s o)) r), snd (step BL zp s o) :: snd (run BL zp (fst (step BL zp s o)) r)).
+Proof. cbn [run]. destruct (step BL zp s o) as [s1 x]. cbn [fst snd]. destruct (run BL zp s1 r). reflexivity. Qed.
 
 Lemma spec_run_cons q o r :
   spec_run q (o :: r) =
@@ -214,36 +222,36 @@ Proof. cbn [spec_run]. destruct (spec_step q o) as [q1 x]. cbn [fst snd]. destru
 
 Lemma hist_ok_head E M p c e o r : hist_ok E M p c e (o :: r) -> hist_ok E M p c e [o].
 Proof.
-  destruct o as [[|] e'|auth b|auth ed|amt]; cbn [hist_ok]; intro H; try tauto.
+  destruct o as [[|] e'|auth b|auth ed|amt|auth rt]; cbn [hist_ok]; intro H; try tauto.
 Qed.
 
 Lemma hist_ok_tail E M p c e o r :
   hist_ok E M p c e (o :: r) -> hist_ok E M (next_params p o) (next_c p o c) (next_e o e) r.
 Proof.
-  destruct o as [[|] e'|auth b|auth ed|amt]; cbn [hist_ok next_params next_c next_e]; intro H; try tauto.
+  destruct o as [[|] e'|auth b|auth ed|amt|auth rt]; cbn [hist_ok next_params next_c next_e]; intro H; try tauto.
 Qed.
 
 Lemma spec_step_state q o :
   fst (spec_step q o) = {| q_params := next_params (q_params q) o; q_c := next_c (q_params q) o (q_c q) |}.
 Proof.
-  destruct q as [p c]. destruct o as [[|] e'|[|] b|auth ed|amt]; cbn [spec_step next_params next_c q_params q_c fst]; try reflexivity.
+  destruct q as [p c]. destruct o as [[|] e'|[|] b|auth ed|amt|auth rt]; cbn [spec_step next_params next_c q_params q_c fst]; try reflexivity.
   - destruct (p_enabled p); reflexivity.
   - destruct (auth && valid (merge ed p)); reflexivity.
 Qed.
 
 (** MAIN: from a consistent state, over every admissible history, what the code does is what the
     closed-form schedule prescribes, op by op; and the coupling holds again at the end *)
-Theorem refines_schedule : forall E M ops s e c,
+Theorem refines_schedule : forall BL E M ops, wiring_ok BL -> forall s e c,
   small E M -> R E M s e c -> hist_ok E M (s_params s) c e ops ->
-  map view_of (snd (run false s ops)) = snd (spec_run {| q_params := s_params s; q_c := c |} ops) /\
-  exists e' c', R E M (fst (run false s ops)) e' c' /\
+  map view_of (snd (run BL false s ops)) = snd (spec_run {| q_params := s_params s; q_c := c |} ops) /\
+  exists e' c', R E M (fst (run BL false s ops)) e' c' /\
                 fst (spec_run {| q_params := s_params s; q_c := c |} ops) =
-                {| q_params := s_params (fst (run false s ops)); q_c := c' |}.
+                {| q_params := s_params (fst (run BL false s ops)); q_c := c' |}.
 Proof.
-  intros E M ops. induction ops as [|o r IH]; intros s e c Hs HR Hh.
+  intros BL E M ops HW. induction ops as [|o r IH]; intros s e c Hs HR Hh.
   - cbn. split; [reflexivity|]. exists e, c. auto.
   - rewrite run_cons, spec_run_cons. cbn [fst snd map].
-    destruct (step_refines E M s e c o Hs HR (hist_ok_head _ _ _ _ _ _ _ Hh)) as [V [HR' Hp]].
+    destruct (step_refines BL E M s e c o HW Hs HR (hist_ok_head _ _ _ _ _ _ _ Hh)) as [V [HR' Hp]].
     pose proof (hist_ok_tail _ _ _ _ _ _ _ Hh) as Ht. rewrite <- Hp in Ht.
     rewrite spec_step_state. cbn [q_params q_c]. rewrite <- Hp.
     destruct (IH _ _ _ Hs HR' Ht) as [Vr Er].
@@ -263,7 +271,7 @@ Lemma spec_position : forall ops p c,
 Proof.
   induction ops as [|o r IH]; intros p c; [cbn; lia|].
   rewrite spec_run_cons. cbn [fst]. rewrite spec_step_state. cbn [q_params q_c enabled_days].
-  rewrite IH. destruct o as [[|] e'|auth b|auth ed|amt]; cbn [next_c]; try lia. destruct (p_enabled p); lia.
+  rewrite IH. destruct o as [[|] e'|auth b|auth ed|amt|auth rt]; cbn [next_c]; try lia. destruct (p_enabled p); lia.
 Qed.
 
 (* ---------------------------------------------------------------- everything minted is distributed *)
@@ -271,9 +279,9 @@ Qed.
 (** one day-epoch end, any state with valid proportions (also with stray coins in the module account, also an
     inconsistent one): the three recipients receive exactly what was minted plus what lay in the module account;
     staking and community are the floors of their proportions; the module account ends empty *)
-Lemma all_distributed zp s e :
-  dist_ok (s_params s) -> 0 <= s_module s ->
-  let x := snd (after_epoch_end zp s true e) in
+Lemma all_distributed BL zp s e :
+  blocked BL (s_root s) = false -> dist_ok (s_params s) -> 0 <= s_module s ->
+  let x := snd (after_epoch_end BL zp s true e) in
   0 <= o_minted x /\
   (0 < o_minted x ->
      o_staking x + o_community x + o_strategic x = o_minted x + s_module s /\ o_module x = 0 /\
@@ -281,7 +289,7 @@ Lemma all_distributed zp s e :
      o_community x = o_minted x * p_community (s_params s) / PREC) /\
   (o_minted x = 0 -> o_staking x = 0 /\ o_community x = 0 /\ o_strategic x = 0 /\ o_module x = s_module s).
 Proof.
-  intros Hd Hm. unfold after_epoch_end. cbn [negb].
+  intros Hb Hd Hm. unfold after_epoch_end. rewrite Hb. cbn [negb]. unfold epoch_end. cbn [negb].
   destruct (p_enabled (s_params s)); cbn [negb].
   - destruct (0 <? provision (s_params s) (peek (s_period s))) eqn:Pv; cbn [negb].
     + apply Z.ltb_lt in Pv.
@@ -298,16 +306,16 @@ Qed.
 
 (* ---------------------------------------------------------------- disabled epochs *)
 
-Lemma disabled_epochs_mint_nothing zp s e :
+Lemma disabled_epochs_mint_nothing BL zp s e :
   p_enabled (s_params s) = false -> 0 <= peek (s_skipped s) < two64 - 1 ->
-  let s' := fst (after_epoch_end zp s true e) in
-  let x := snd (after_epoch_end zp s true e) in
+  let s' := fst (after_epoch_end BL zp s true e) in
+  let x := snd (after_epoch_end BL zp s true e) in
   o_minted x = 0 /\ o_staking x = 0 /\ o_community x = 0 /\ o_strategic x = 0 /\ o_panic x = false /\
   s_module s' = s_module s /\ s_period s' = s_period s /\ s_params s' = s_params s /\
   (p_started (s_params s) = true -> n_of s' (e + 1) = n_of s e) /\
   (p_started (s_params s) = false -> n_of s' (e + 1) = 1).
 Proof.
-  intros Hen Hk. unfold after_epoch_end, n_of. cbn [negb]. rewrite Hen. cbn [negb fst snd].
+  intros Hen Hk. unfold after_epoch_end, epoch_end, n_of. cbn [negb]. rewrite Hen. cbn [negb fst snd].
   destruct (p_started (s_params s)); cbn [negb set_skipped quiet o_minted o_staking o_community o_strategic o_panic
                                             s_module s_period s_params s_skipped peek].
   - rewrite wrap_small by lia. repeat split; auto; try discriminate. intros _. lia.
@@ -319,12 +327,12 @@ Qed.
 (** a module that never started (whatever its skipped counter says) is consistent after the first day epoch that
     ends while it is still disabled — which is how a chain starts, and how a chain that adds the module by an
     upgrade repairs a stale counter *)
-Lemma fresh_start_consistent zp s e :
+Lemma fresh_start_consistent BL zp s e :
   p_started (s_params s) = false -> p_enabled (s_params s) = false -> peek (s_period s) = 0 ->
   0 <= p_max (s_params s) -> 0 < p_epp (s_params s) ->
-  Consistent (fst (after_epoch_end zp s true e)) (e + 1).
+  Consistent (fst (after_epoch_end BL zp s true e)) (e + 1).
 Proof.
-  intros Hst Hen Hp HM HE. unfold after_epoch_end. cbn [negb]. rewrite Hen, Hst. cbn [negb fst].
+  intros Hst Hen Hp HM HE. unfold after_epoch_end, epoch_end. cbn [negb]. rewrite Hen, Hst. cbn [negb fst].
   unfold Consistent, n_of. cbn [set_skipped s_params s_skipped s_period peek].
   rewrite Hen, Hst. replace (e + 1 - e) with 1 by lia. replace (1 - 1) with 0 by lia.
   rewrite Z.div_0_l by lia. rewrite Z.min_l by lia.
@@ -345,18 +353,18 @@ Qed.
 (* ---------------------------------------------------------------- inconsistent genesis *)
 
 (** the raw step of an enabled epoch at period [per] < MaxPeriod with a provision of at least one unibi *)
-Lemma enabled_step_raw zp s e :
+Lemma enabled_step_raw BL zp s e :
   let p := s_params s in let per := peek (s_period s) in let k := peek (s_skipped s) in
-  p_enabled p = true -> dist_ok p -> s_module s = 0 ->
+  blocked BL (s_root s) = false -> p_enabled p = true -> dist_ok p -> s_module s = 0 ->
   0 < p_epp p < two62 -> 0 <= per < p_max p -> 0 <= p_epp p * per < two62 -> 0 <= e < two62 -> 0 <= k < two62 ->
   PREC <= poly_provision p per ->
-  o_minted (snd (after_epoch_end zp s true e)) = truncate_int (poly_provision p per) /\
-  peek (s_period (fst (after_epoch_end zp s true e))) =
+  o_minted (snd (after_epoch_end BL zp s true e)) = truncate_int (poly_provision p per) /\
+  peek (s_period (fst (after_epoch_end BL zp s true e))) =
     (if p_epp p <=? e - p_epp p * per - k then per + 1 else per) /\
-  s_skipped (fst (after_epoch_end zp s true e)) = s_skipped s.
+  s_skipped (fst (after_epoch_end BL zp s true e)) = s_skipped s.
 Proof.
-  intros p per k Hen Hd Hm HE Hper Hmul He Hk Hprov. destruct two62_lt as [T1 [T2 T3]].
-  unfold after_epoch_end. cbn [negb]. fold p per k. rewrite Hen. cbn [negb].
+  intros p per k Hb Hen Hd Hm HE Hper Hmul He Hk Hprov. destruct two62_lt as [T1 [T2 T3]].
+  unfold after_epoch_end. rewrite Hb. cbn [negb]. unfold epoch_end. cbn [negb]. fold p per k. rewrite Hen. cbn [negb].
   rewrite provision_below by (auto; lia).
   pose proof PREC_pos as P.
   assert (0 <? poly_provision p per = true) as -> by (apply Z.ltb_lt; lia). cbn [negb].
@@ -371,19 +379,19 @@ Qed.
 
 (** behind the schedule (period < floor((n-1)/EPP)): every enabled epoch mints the amount of the lagging
     period and advances the period by one; the lag never grows (it shrinks except when n crosses a multiple of EPP) *)
-Lemma behind_catches_up zp s e :
+Lemma behind_catches_up BL zp s e :
   let p := s_params s in let per := peek (s_period s) in let n := n_of s e in
-  p_enabled p = true -> dist_ok p -> s_module s = 0 ->
+  blocked BL (s_root s) = false -> p_enabled p = true -> dist_ok p -> s_module s = 0 ->
   0 < p_epp p < two62 -> 0 <= per < p_max p -> 0 <= p_epp p * per < two62 -> 0 <= e < two62 ->
   0 <= peek (s_skipped s) < two62 -> PREC <= poly_provision p per ->
   per < (n - 1) / p_epp p ->
-  let s' := fst (after_epoch_end zp s true e) in
-  o_minted (snd (after_epoch_end zp s true e)) = truncate_int (poly_provision p per) /\
+  let s' := fst (after_epoch_end BL zp s true e) in
+  o_minted (snd (after_epoch_end BL zp s true e)) = truncate_int (poly_provision p per) /\
   peek (s_period s') = per + 1 /\
   (n_of s' (e + 1) - 1) / p_epp p - peek (s_period s') <= (n - 1) / p_epp p - per.
 Proof.
-  intros p per n Hen Hd Hm HE Hper Hmul He Hk Hprov Hbehind.
-  destruct (enabled_step_raw zp s e Hen Hd Hm HE Hper Hmul He Hk Hprov) as [A [B C]].
+  intros p per n Hb Hen Hd Hm HE Hper Hmul He Hk Hprov Hbehind.
+  destruct (enabled_step_raw BL zp s e Hb Hen Hd Hm HE Hper Hmul He Hk Hprov) as [A [B C]].
   fold p per in A, B. unfold n, n_of in *.
   set (E := p_epp p) in *. set (k := peek (s_skipped s)) in *.
   assert (Roll : E <=? e - E * per - k = true).
@@ -400,17 +408,17 @@ Proof.
 Qed.
 
 (** ahead of the schedule (period > floor((n-1)/EPP)): the period waits *)
-Lemma ahead_waits zp s e :
+Lemma ahead_waits BL zp s e :
   let p := s_params s in let per := peek (s_period s) in let n := n_of s e in
-  p_enabled p = true -> dist_ok p -> s_module s = 0 ->
+  blocked BL (s_root s) = false -> p_enabled p = true -> dist_ok p -> s_module s = 0 ->
   0 < p_epp p < two62 -> 0 <= per < p_max p -> 0 <= p_epp p * per < two62 -> 0 <= e < two62 ->
   0 <= peek (s_skipped s) < two62 -> PREC <= poly_provision p per ->
   (n - 1) / p_epp p < per -> 1 <= n ->
-  o_minted (snd (after_epoch_end zp s true e)) = truncate_int (poly_provision p per) /\
-  peek (s_period (fst (after_epoch_end zp s true e))) = per.
+  o_minted (snd (after_epoch_end BL zp s true e)) = truncate_int (poly_provision p per) /\
+  peek (s_period (fst (after_epoch_end BL zp s true e))) = per.
 Proof.
-  intros p per n Hen Hd Hm HE Hper Hmul He Hk Hprov Hahead Hn.
-  destruct (enabled_step_raw zp s e Hen Hd Hm HE Hper Hmul He Hk Hprov) as [A [B C]].
+  intros p per n Hb Hen Hd Hm HE Hper Hmul He Hk Hprov Hahead Hn.
+  destruct (enabled_step_raw BL zp s e Hb Hen Hd Hm HE Hper Hmul He Hk Hprov) as [A [B C]].
   fold p per in A, B. unfold n, n_of in *.
   set (E := p_epp p) in *. set (k := peek (s_skipped s)) in *.
   assert (Roll : E <=? e - E * per - k = false).
@@ -430,12 +438,12 @@ Definition lin_params (en st : bool) : params :=
 
 (** a running chain imported with zeroed counters while the day epoch stands at 7 *)
 Definition bad_genesis : st :=
-  {| s_params := lin_params true true; s_period := Some 0; s_skipped := Some 0; s_module := 0 |}.
+  {| s_params := lin_params true true; s_period := Some 0; s_skipped := Some 0; s_module := 0; s_root := RAcct 0 |}.
 
-Lemma closed_form_refuted_for_inconsistent_genesis :
+Lemma closed_form_refuted_for_inconsistent_genesis BL :
   exists s e, dist_ok (s_params s) /\ poly_unit (s_params s) /\ s_module s = 0 /\
               p_started (s_params s) = true /\ ~ Consistent s e /\
-              o_minted (snd (after_epoch_end true s true e)) <> sched_mint (s_params s) (n_of s e - 1).
+              o_minted (snd (after_epoch_end BL true s true e)) <> sched_mint (s_params s) (n_of s e - 1).
 Proof.
   exists bad_genesis, 7. split; [vm_compute; repeat split; discriminate|].
   split.
@@ -448,15 +456,15 @@ Proof.
 Qed.
 
 (** never started, but switched on before any day epoch ended while the epoch counter is already at 7 *)
-Lemma first_enable_without_a_disabled_epoch_refuted :
+Lemma first_enable_without_a_disabled_epoch_refuted BL :
   exists s e, p_started (s_params s) = false /\ p_enabled (s_params s) = false /\ peek (s_period s) = 0 /\
-    let s1 := fst (step true s (Toggle true true)) in
+    let s1 := fst (step BL true s (Toggle true true)) in
     ~ Consistent s1 e /\
     (* the 4 epochs 7..10 are the first four enabled ones: the schedule keeps period 0 for two of them and period 1
        for the next two; the code rolls over after every one of them *)
-    map o_period (snd (run true s1 [EpochEnd true 7; EpochEnd true 8; EpochEnd true 9; EpochEnd true 10])) = [1; 2; 3; 4].
+    map o_period (snd (run BL true s1 [EpochEnd true 7; EpochEnd true 8; EpochEnd true 9; EpochEnd true 10])) = [1; 2; 3; 4].
 Proof.
-  exists {| s_params := lin_params false false; s_period := Some 0; s_skipped := Some 0; s_module := 0 |}, 7.
+  exists {| s_params := lin_params false false; s_period := Some 0; s_skipped := Some 0; s_module := 0; s_root := RAcct 0 |}, 7.
   split; [reflexivity|]. split; [reflexivity|]. split; [reflexivity|]. split.
   - intros [_ [_ [C _]]]. vm_compute in C. discriminate.
   - vm_compute. reflexivity.
@@ -469,12 +477,12 @@ Definition tiny_state : st :=
   {| s_params := {| p_enabled := true; p_started := true; p_factors := [400000000000];
                     p_staking := 281250000000000000; p_community := 354825000000000000; p_strategic := 363925000000000000;
                     p_epp := 30; p_ppy := 12; p_max := 2 |};
-     s_period := Some 0; s_skipped := Some 0; s_module := 0 |}.
+     s_period := Some 0; s_skipped := Some 0; s_module := 0; s_root := RAcct 0 |}.
 
-Lemma sub_unit_provision_panics :
+Lemma sub_unit_provision_panics BL :
   exists s e, Consistent s e /\ dist_ok (s_params s) /\ poly_pos (s_params s) /\ s_module s = 0 /\
-              o_panic (snd (after_epoch_end true s true e)) = true /\
-              o_panic (snd (after_epoch_end false s true e)) = false.
+              o_panic (snd (after_epoch_end BL true s true e)) = true /\
+              o_panic (snd (after_epoch_end BL false s true e)) = false.
 Proof.
   exists tiny_state, 1. split; [vm_compute; repeat split; try discriminate; auto|].
   split; [vm_compute; repeat split; discriminate|]. split.
@@ -500,7 +508,7 @@ Qed.
 Lemma hist_okb_sound E M : forall ops p c e, hist_okb E M p c e ops = true -> hist_ok E M p c e ops.
 Proof.
   induction ops as [|o r IH]; intros p c e H; [exact I|].
-  destruct o as [[|] e'|auth b|auth ed|amt]; cbn [hist_okb hist_ok] in *.
+  destruct o as [[|] e'|auth b|auth ed|amt|auth rt]; cbn [hist_okb hist_ok] in *.
   - repeat (apply andb_true_iff in H; destruct H as [H ?]).
     apply Z.eqb_eq in H. apply Z.leb_le in H3. apply Z.ltb_lt in H2.
     split; [exact H|]. split; [lia|]. split; [|apply IH; assumption].
@@ -510,6 +518,8 @@ Proof.
   - repeat (apply andb_true_iff in H; destruct H as [H ?]). apply Z.eqb_eq in H. apply Z.eqb_eq in H1. auto.
   - repeat (apply andb_true_iff in H; destruct H as [H ?]). apply Z.eqb_eq in H. apply Z.eqb_eq in H1. auto.
   - discriminate.
+  - repeat (apply andb_true_iff in H; destruct H as [H ?]). apply Z.eqb_eq in H1. apply Z.eqb_eq in H2.
+    split; [intros ->; exact H|]. auto.
 Qed.
 
 Lemma consistentb_sound s e : consistentb s e = true -> Consistent s e.
@@ -533,32 +543,33 @@ Proof.
   f_equal. apply IH. lia.
 Qed.
 
-Lemma run_length zp : forall ops s, length (snd (run zp s ops)) = length ops.
+Lemma run_length BL zp : forall ops s, length (snd (run BL zp s ops)) = length ops.
 Proof.
   induction ops as [|o r IH]; intro s; [reflexivity|]. rewrite run_cons. cbn [snd length]. rewrite IH. reflexivity.
 Qed.
 
 (** wherever the check evaluates the schedule predicate ([pre] holds), the case is inside the hypotheses of
     [refines_schedule]; hence the MODEL's trace of that case satisfies the predicate *)
-Lemma pre_sound c :
-  pre c = true ->
-  P_trace (start_q c) (combine (map fst (c_tr c)) (snd (run false (c_init c) (map fst (c_tr c))))).
+Lemma pre_sound BL c :
+  wiring_ok BL -> pre c = true ->
+  P_trace (start_q c) (combine (map fst (c_tr c)) (snd (run BL false (c_init c) (map fst (c_tr c))))).
 Proof.
-  unfold pre, start_q. destruct (first_day (map fst (c_tr c))) as [e|] eqn:Fd; [|discriminate].
+  intro HW. unfold pre, start_q. destruct (first_day (map fst (c_tr c))) as [e|] eqn:Fd; [|discriminate].
   intro H.
   apply andb_true_iff in H. destruct H as [H H0].
   apply andb_true_iff in H. destruct H as [H H1].
   apply andb_true_iff in H. destruct H as [H H2].
   apply andb_true_iff in H. destruct H as [H H3].
+  apply andb_true_iff in H. destruct H as [Hop H].
   apply consistentb_sound in H. apply Z.eqb_eq in H3. apply Z.leb_le in H1. apply hist_okb_sound in H0.
   assert (Hs : small (p_epp (s_params (c_init c))) (p_max (s_params (c_init c)))).
   { unfold smallb in H2.
     apply andb_true_iff in H2. destruct H2 as [H2 H4]. apply andb_true_iff in H2. destruct H2 as [H2 H5].
     apply Z.ltb_lt in H2. apply Z.leb_le in H5. apply Z.ltb_lt in H4. repeat split; assumption. }
-  pose proof (Consistent_R _ _ H H3 H1) as HR.
-  destruct (refines_schedule _ _ _ _ _ _ Hs HR H0) as [V _].
+  pose proof (Consistent_R _ _ H H3 H1 Hop) as HR.
+  destruct (refines_schedule BL _ _ _ HW _ _ _ Hs HR H0) as [V _].
   unfold P_trace.
-  set (ops := map fst (c_tr c)) in *. set (outs := snd (run false (c_init c) ops)) in *.
+  set (ops := map fst (c_tr c)) in *. set (outs := snd (run BL false (c_init c) ops)) in *.
   assert (L : length outs = length ops) by apply run_length.
   pose proof (combine_fst ops outs L) as M1.
   pose proof (combine_snd_map view_of ops outs L) as M2.
@@ -576,7 +587,7 @@ Definition default_params (en st : bool) : params :=
      p_epp := 30; p_ppy := 12; p_max := 96 |}.
 
 Definition genesis_state : st :=
-  {| s_params := default_params false false; s_period := Some 0; s_skipped := Some 0; s_module := 0 |}.
+  {| s_params := default_params false false; s_period := Some 0; s_skipped := Some 0; s_module := 0; s_root := RAcct 0 |}.
 
 Example genesis_state_consistent : Consistent genesis_state 1 /\ small 30 96 /\ dist_ok (s_params genesis_state).
 Proof.
@@ -593,15 +604,15 @@ Definition ex_ops : list op :=
 Example ex_hist_ok : hist_ok 30 96 (s_params genesis_state) 0 1 ex_ops.
 Proof. apply hist_okb_sound. vm_compute. reflexivity. Qed.
 
-Example ex_periods :
-  map o_period (snd (run true genesis_state ex_ops)) =
+Example ex_periods BL :
+  map o_period (snd (run BL true genesis_state ex_ops)) =
   [0; 0; 0] ++ repeat 0 29 ++ [1; 1] ++ [1; 1; 1; 1; 1].
 Proof. vm_compute. reflexivity. Qed.
 
-Example ex_mints :
-  (nth 3 (map o_minted (snd (run true genesis_state ex_ops))) 0,
-   nth 33 (map o_minted (snd (run true genesis_state ex_ops))) 0,
-   nth 35 (map o_minted (snd (run true genesis_state ex_ops))) 0) =
+Example ex_mints BL :
+  (nth 3 (map o_minted (snd (run BL true genesis_state ex_ops))) 0,
+   nth 33 (map o_minted (snd (run BL true genesis_state ex_ops))) 0,
+   nth 35 (map o_minted (snd (run BL true genesis_state ex_ops))) 0) =
   (594248830218, 583191333818, 0).
 Proof. vm_compute. reflexivity. Qed.
 
@@ -612,19 +623,21 @@ Proof. vm_compute. split; [reflexivity|discriminate]. Qed.
 
 (* ---------------------------------------------------------------- statements in terms of [Consistent] *)
 
-Theorem period_tracks_schedule : forall ops s e,
+Theorem period_tracks_schedule : forall BL ops s e,
   let p := s_params s in
+  wiring_ok BL -> operable (s_root s) = true ->
   Consistent s e -> s_module s = 0 -> 0 <= peek (s_skipped s) -> small (p_epp p) (p_max p) ->
   hist_ok (p_epp p) (p_max p) p (n_of s e - 1) e ops ->
-  map view_of (snd (run false s ops)) = snd (spec_run {| q_params := p; q_c := n_of s e - 1 |} ops) /\
-  exists e', Consistent (fst (run false s ops)) e' /\
+  map view_of (snd (run BL false s ops)) = snd (spec_run {| q_params := p; q_c := n_of s e - 1 |} ops) /\
+  exists e', Consistent (fst (run BL false s ops)) e' /\ operable (s_root (fst (run BL false s ops))) = true /\
              fst (spec_run {| q_params := p; q_c := n_of s e - 1 |} ops) =
-             {| q_params := s_params (fst (run false s ops)); q_c := n_of (fst (run false s ops)) e' - 1 |}.
+             {| q_params := s_params (fst (run BL false s ops)); q_c := n_of (fst (run BL false s ops)) e' - 1 |}.
 Proof.
-  intros ops s e p Hc Hm Hk Hs Hh.
-  pose proof (Consistent_R s e Hc Hm Hk) as HR.
-  destruct (refines_schedule _ _ ops s e _ Hs HR Hh) as [V [e' [c' [HR' Eq]]]].
+  intros BL ops s e p HW Ho Hc Hm Hk Hs Hh.
+  pose proof (Consistent_R s e Hc Hm Hk Ho) as HR.
+  destruct (refines_schedule BL _ _ ops HW s e _ Hs HR Hh) as [V [e' [c' [HR' Eq]]]].
   split; [exact V|]. exists e'. destruct (R_Consistent _ _ _ _ _ HR') as [C' Ec]. split; [exact C'|].
+  split; [apply HR'|].
   unfold p. rewrite Eq. rewrite Ec. reflexivity.
 Qed.
 
@@ -651,102 +664,122 @@ Proof. intros H per Hper. specialize (H per Hper). pose proof PREC_pos. lia. Qed
 
 (* ---------------------------------------------------------------- the distribution along EVERY history *)
 
-Lemma step_module zp s o : o_module (snd (step zp s o)) = s_module (fst (step zp s o)).
+Lemma step_module BL zp s o : o_module (snd (step BL zp s o)) = s_module (fst (step BL zp s o)).
 Proof.
-  destruct o as [day e|auth b|auth ed|amt]; cbn [step].
-  - unfold after_epoch_end. destruct day; cbn [negb]; [|reflexivity].
+  destruct o as [day e|auth b|auth ed|amt|auth rt]; cbn [step].
+  - unfold after_epoch_end, epoch_end. destruct day; cbn [negb]; [|reflexivity].
     destruct (p_enabled (s_params s)); cbn [negb].
     + destruct (0 <? provision (s_params s) (peek (s_period s))); cbn [negb]; [|reflexivity].
       destruct (0 <? truncate_int (provision (s_params s) (peek (s_period s)))); cbn [negb]; [|reflexivity].
-      destruct (allocate (s_params s) (s_module s) _) as [[[[a b] c] d] f]. reflexivity.
+      destruct (allocate _ (s_params s) (s_module s) _) as [[[[a b] c] d] f]. reflexivity.
     + destruct (p_started (s_params s)); reflexivity.
   - destruct auth; reflexivity.
   - destruct (auth && valid (merge ed (s_params s))); reflexivity.
   - reflexivity.
+  - destruct auth; reflexivity.
 Qed.
 
-Lemma step_params zp s o : s_params (fst (step zp s o)) = next_params (s_params s) o.
+Lemma step_params BL zp s o : s_params (fst (step BL zp s o)) = next_params (s_params s) o.
 Proof.
-  destruct o as [day e|auth b|auth ed|amt]; cbn [step next_params].
-  - unfold after_epoch_end. destruct day; cbn [negb]; [|reflexivity].
+  destruct o as [day e|auth b|auth ed|amt|auth rt]; cbn [step next_params].
+  - unfold after_epoch_end, epoch_end. destruct day; cbn [negb]; [|reflexivity].
     destruct (p_enabled (s_params s)); cbn [negb].
     + destruct (0 <? provision (s_params s) (peek (s_period s))); cbn [negb]; [|reflexivity].
       destruct (0 <? truncate_int (provision (s_params s) (peek (s_period s)))); cbn [negb]; [|reflexivity].
-      destruct (allocate (s_params s) (s_module s) _) as [[[[a b] c] d] f]. reflexivity.
+      destruct (allocate _ (s_params s) (s_module s) _) as [[[[a b] c] d] f]. reflexivity.
     + destruct (p_started (s_params s)); reflexivity.
   - destruct auth; reflexivity.
   - destruct (auth && valid (merge ed (s_params s))); reflexivity.
   - reflexivity.
+  - destruct auth; reflexivity.
+Qed.
+
+Lemma step_root BL zp s o : s_root (fst (step BL zp s o)) = next_root (s_root s) o.
+Proof.
+  destruct o as [day e|auth b|auth ed|amt|auth rt]; cbn [step next_root].
+  - unfold after_epoch_end, epoch_end. destruct day; cbn [negb]; [|reflexivity].
+    destruct (p_enabled (s_params s)); cbn [negb].
+    + destruct (0 <? provision (s_params s) (peek (s_period s))); cbn [negb]; [|reflexivity].
+      destruct (0 <? truncate_int (provision (s_params s) (peek (s_period s)))); cbn [negb]; [|reflexivity].
+      destruct (allocate _ (s_params s) (s_module s) _) as [[[[a b] c] d] f]. reflexivity.
+    + destruct (p_started (s_params s)); reflexivity.
+  - destruct auth; reflexivity.
+  - destruct (auth && valid (merge ed (s_params s))); reflexivity.
+  - reflexivity.
+  - destruct auth; reflexivity.
 Qed.
 
 Definition fund_nonneg (o : op) : Prop := match o with Fund a => 0 <= a | _ => True end.
 
-Lemma allocate_module_nonneg p m0 amt :
-  0 <= m0 -> 0 <= amt -> let '(_, _, _, m, _) := allocate p m0 amt in 0 <= m.
+Lemma allocate_module_nonneg recv p m0 amt :
+  0 <= m0 -> 0 <= amt -> let '(_, _, _, m, _) := allocate recv p m0 amt in 0 <= m.
 Proof.
   intros Hm Ha. unfold allocate.
   destruct (m0 + amt <? share amt (p_staking p)) eqn:A; [lia|]. apply Z.ltb_ge in A.
-  destruct (m0 + amt - share amt (p_staking p) <? share amt (p_community p)) eqn:B; lia.
+  destruct (m0 + amt - share amt (p_staking p) <? share amt (p_community p)) eqn:B; [lia|]. apply Z.ltb_ge in B.
+  destruct recv; cbn [negb]; lia.
 Qed.
 
-Lemma step_module_nonneg zp s o : 0 <= s_module s -> fund_nonneg o -> 0 <= s_module (fst (step zp s o)).
+Lemma step_module_nonneg BL zp s o : 0 <= s_module s -> fund_nonneg o -> 0 <= s_module (fst (step BL zp s o)).
 Proof.
-  intros Hm Hf. destruct o as [day e|auth b|auth ed|amt]; cbn [step].
-  - unfold after_epoch_end. destruct day; cbn [negb]; [|exact Hm].
+  intros Hm Hf. destruct o as [day e|auth b|auth ed|amt|auth rt]; cbn [step].
+  - unfold after_epoch_end, epoch_end. destruct day; cbn [negb]; [|exact Hm].
     destruct (p_enabled (s_params s)); cbn [negb].
     + destruct (0 <? provision (s_params s) (peek (s_period s))); cbn [negb]; [|exact Hm].
       destruct (0 <? truncate_int (provision (s_params s) (peek (s_period s)))) eqn:Pa; cbn [negb]; [|exact Hm].
       apply Z.ltb_lt in Pa.
-      pose proof (allocate_module_nonneg (s_params s) (s_module s) _ Hm (Z.lt_le_incl _ _ Pa)) as X.
-      destruct (allocate (s_params s) (s_module s) _) as [[[[a b] c] d] f]. exact X.
+      pose proof (allocate_module_nonneg (negb (blocked BL (s_root s))) (s_params s) (s_module s) _ Hm (Z.lt_le_incl _ _ Pa)) as X.
+      destruct (allocate _ (s_params s) (s_module s) _) as [[[[a b] c] d] f]. exact X.
     + destruct (p_started (s_params s)); exact Hm.
   - destruct auth; exact Hm.
   - destruct (auth && valid (merge ed (s_params s))); exact Hm.
   - cbn in *. lia.
+  - destruct auth; exact Hm.
 Qed.
 
 (** EVERY history from EVERY state (consistent or not, any parameters): at each day-epoch end with valid
     proportions everything minted is distributed and the module account is swept *)
-Theorem distributed_along_every_history zp : forall ops s,
+Theorem distributed_along_every_history BL zp : wiring_ok BL -> forall ops s,
   0 <= s_module s -> Forall fund_nonneg ops ->
-  P_dist (s_params s) (s_module s) (combine ops (snd (run zp s ops))).
+  P_dist (s_params s) (s_root s) (s_module s) (combine ops (snd (run BL zp s ops))).
 Proof.
-  induction ops as [|o r IH]; intros s Hm Hf; [exact I|].
+  intro HW. induction ops as [|o r IH]; intros s Hm Hf; [exact I|].
   inversion Hf as [|? ? Hf1 Hf2]; subst.
   rewrite run_cons. cbn [snd combine P_dist].
-  pose proof (step_module_nonneg zp s o Hm Hf1) as Hm'.
-  pose proof (IH (fst (step zp s o)) Hm' Hf2) as Hr.
-  rewrite step_params, <- step_module in Hr.
-  destruct o as [[|] e|auth b|auth ed|amt]; try exact Hr.
+  pose proof (step_module_nonneg BL zp s o Hm Hf1) as Hm'.
+  pose proof (IH (fst (step BL zp s o)) Hm' Hf2) as Hr.
+  rewrite step_params, step_root, <- step_module in Hr.
+  destruct o as [[|] e|auth b|auth ed|amt|auth rt]; try exact Hr.
   split; [|exact Hr].
-  intro D. apply (all_distributed zp s e); [apply dist_okb_sound; exact D|exact Hm].
+  intros D O. apply (all_distributed BL zp s e); [apply HW; exact O|apply dist_okb_sound; exact D|exact Hm].
 Qed.
 
 (* ---------------------------------------------------------------- the integer roll-over along EVERY history *)
 
-Lemma step_counters zp s o :
-  o_period (snd (step zp s o)) = peek (s_period (fst (step zp s o))) /\
-  o_skipped (snd (step zp s o)) = peek (s_skipped (fst (step zp s o))).
+Lemma step_counters BL zp s o :
+  o_period (snd (step BL zp s o)) = peek (s_period (fst (step BL zp s o))) /\
+  o_skipped (snd (step BL zp s o)) = peek (s_skipped (fst (step BL zp s o))).
 Proof.
-  destruct o as [day e|auth b|auth ed|amt]; cbn [step].
-  - unfold after_epoch_end. destruct day; cbn [negb]; [|split; reflexivity].
+  destruct o as [day e|auth b|auth ed|amt|auth rt]; cbn [step].
+  - unfold after_epoch_end, epoch_end. destruct day; cbn [negb]; [|split; reflexivity].
     destruct (p_enabled (s_params s)); cbn [negb].
     + destruct (0 <? provision (s_params s) (peek (s_period s))); cbn [negb]; [|split; reflexivity].
       destruct (0 <? truncate_int (provision (s_params s) (peek (s_period s)))); cbn [negb]; [|split; reflexivity].
-      destruct (allocate (s_params s) (s_module s) _) as [[[[a b] c] d] f]. split; reflexivity.
+      destruct (allocate _ (s_params s) (s_module s) _) as [[[[a b] c] d] f]. split; reflexivity.
     + destruct (p_started (s_params s)); split; reflexivity.
   - destruct auth; split; reflexivity.
   - destruct (auth && valid (merge ed (s_params s))); split; reflexivity.
   - split; reflexivity.
+  - destruct auth; split; reflexivity.
 Qed.
 
 (** one minting day-epoch end from ANY state with valid proportions: the period moves by the integer test *)
-Lemma roll_one zp s e :
-  dist_ok (s_params s) ->
-  roll_step (s_params s) (s_module s) (peek (s_period s)) (peek (s_skipped s)) e (snd (after_epoch_end zp s true e)).
+Lemma roll_one BL zp s e :
+  blocked BL (s_root s) = false -> dist_ok (s_params s) ->
+  roll_step (s_params s) (s_module s) (peek (s_period s)) (peek (s_skipped s)) e (snd (after_epoch_end BL zp s true e)).
 Proof.
-  intros Hd Hm He Hk HE Hper Hmul. destruct two62_lt as [T1 [T2 T3]].
-  unfold after_epoch_end. cbn [negb].
+  intros Hb Hd Hm He Hk HE Hper Hmul. destruct two62_lt as [T1 [T2 T3]].
+  unfold after_epoch_end. rewrite Hb. cbn [negb]. unfold epoch_end. cbn [negb].
   destruct (p_enabled (s_params s)); cbn [negb].
   - destruct (0 <? provision (s_params s) (peek (s_period s))) eqn:Pv; cbn [negb]; [|cbn; intro; lia].
     destruct (0 <? truncate_int (provision (s_params s) (peek (s_period s)))) eqn:Pa; cbn [negb]; [|cbn; intro; lia].
@@ -760,15 +793,133 @@ Qed.
 
 (** EVERY history from EVERY state (consistent or not; counters behind, on, or AHEAD of the epoch number): at each
     minting day-epoch end the period advances iff e - EPP*period - skipped >= EPP on the integers *)
-Theorem roll_along_every_history zp : forall ops s,
-  P_roll (s_params s) (s_module s) (peek (s_period s)) (peek (s_skipped s)) (combine ops (snd (run zp s ops))).
+Theorem roll_along_every_history BL zp : wiring_ok BL -> forall ops s,
+  P_roll (s_params s) (s_root s) (s_module s) (peek (s_period s)) (peek (s_skipped s)) (combine ops (snd (run BL zp s ops))).
 Proof.
-  induction ops as [|o r IH]; intro s; [exact I|].
+  intro HW. induction ops as [|o r IH]; intro s; [exact I|].
   rewrite run_cons. cbn [snd combine P_roll].
-  pose proof (IH (fst (step zp s o))) as Hr.
-  destruct (step_counters zp s o) as [C1 C2].
-  rewrite step_params, <- step_module, <- C1, <- C2 in Hr.
-  destruct o as [[|] e|auth b|auth ed|amt]; try exact Hr.
+  pose proof (IH (fst (step BL zp s o))) as Hr.
+  destruct (step_counters BL zp s o) as [C1 C2].
+  rewrite step_params, step_root, <- step_module, <- C1, <- C2 in Hr.
+  destruct o as [[|] e|auth b|auth ed|amt|auth rt]; try exact Hr.
   split; [|exact Hr].
-  intro D. apply (roll_one zp s e). apply dist_okb_sound. exact D.
+  intros D O. apply (roll_one BL zp s e); [apply HW; exact O|]. apply dist_okb_sound. exact D.
 Qed.
+
+(* ---------------------------------------------------------------- the sudo root and the bank's blocked recipients *)
+
+Lemma wiring_okb_sound BL : wiring_okb BL = true -> wiring_ok BL.
+Proof.
+  unfold wiring_okb, wiring_ok. intros H [n|m] O; cbn [blocked operable] in *; [reflexivity|].
+  apply String.eqb_eq in O. subst m. apply negb_true_iff in H. exact H.
+Qed.
+
+Lemma wiring_ok_gov BL : wiring_ok BL <-> blocked BL (RMod gov_account) = false.
+Proof.
+  split.
+  - intro H. apply H. reflexivity.
+  - intro H. apply wiring_okb_sound. unfold wiring_okb. cbn [blocked] in H. rewrite H. reflexivity.
+Qed.
+
+(** an ordinary account is never a blocked recipient, whatever the table *)
+Lemma ordinary_root_receives BL n : blocked BL (RAcct n) = false.
+Proof. reflexivity. Qed.
+
+(** THE FAILING-TRANSFER BRANCH.  The bank refuses the sudo root: a minting day-epoch end still mints, still pays the
+    staking and community shares, pays NOTHING to the strategic reserve — its share stays in the inflation module
+    account — and the hook returns before the roll-over test: period and skipped counter are untouched. *)
+Lemma blocked_root_partial_effects BL zp s e :
+  blocked BL (s_root s) = true -> dist_ok (s_params s) -> 0 <= s_module s ->
+  let x := snd (after_epoch_end BL zp s true e) in
+  let s' := fst (after_epoch_end BL zp s true e) in
+  0 < o_minted x ->
+  o_staking x = o_minted x * p_staking (s_params s) / PREC /\
+  o_community x = o_minted x * p_community (s_params s) / PREC /\
+  o_strategic x = 0 /\
+  o_module x = s_module s + o_minted x - o_staking x - o_community x /\
+  s_period s' = s_period s /\ s_skipped s' = s_skipped s /\ o_period x = peek (s_period s).
+Proof.
+  intros Hb Hd Hm. unfold after_epoch_end. rewrite Hb. cbn [negb]. unfold epoch_end. cbn [negb].
+  destruct (p_enabled (s_params s)); cbn [negb].
+  - destruct (0 <? provision (s_params s) (peek (s_period s))) eqn:Pv; cbn [negb]; [|cbn; intro; lia].
+    destruct (0 <? truncate_int (provision (s_params s) (peek (s_period s)))) eqn:Pa; cbn [negb]; [|cbn; intro; lia].
+    apply Z.ltb_lt in Pa.
+    rewrite (allocate_blocked _ _ _ Hd Hm (Z.lt_le_incl _ _ Pa)).
+    cbn [andb fst snd o_minted o_staking o_community o_strategic o_module o_period s_period s_skipped].
+    destruct Hd as [D1 [D2 [D3 D4]]]. intros _.
+    rewrite !share_eq by lia. repeat split; lia.
+  - destruct (p_started (s_params s)); cbn; intro; lia.
+Qed.
+
+(** hence, with valid proportions, stray-free module account and a strategic proportion that leaves the root at least
+    one unibi, the parts do NOT sum to the minted amount and the module account is NOT left empty *)
+Lemma blocked_root_not_distributed BL zp s e :
+  blocked BL (s_root s) = true -> dist_ok (s_params s) -> 0 <= s_module s ->
+  let x := snd (after_epoch_end BL zp s true e) in
+  0 < o_minted x -> o_staking x + o_community x < o_minted x + s_module s ->
+  o_staking x + o_community x + o_strategic x <> o_minted x + s_module s /\ o_module x <> 0.
+Proof.
+  intros Hb Hd Hm x Pos Lt.
+  destruct (blocked_root_partial_effects BL zp s e Hb Hd Hm Pos) as [_ [_ [S [M _]]]].
+  fold x in S, M. split; lia.
+Qed.
+
+(** REFUTATION for every wiring whose bank blocks the governance module account (the seeded variant of app_config.go:
+    blocked list derived from the module-account permissions): governance is an operable sudo root, the state is
+    consistent, proportions valid, polynomial >= 1 unibi — and the first enabled day epoch leaves the strategic share
+    in the module account, the parts fall short of the minted amount, and after EpochsPerPeriod = 2 epochs the period
+    is still 0 where the schedule says 1. *)
+Definition gov_root_state : st :=
+  {| s_params := {| p_enabled := true; p_started := true; p_factors := [-10 * PREC; 1000 * PREC];
+                    p_staking := 281250000000000000; p_community := 354825000000000000; p_strategic := 363925000000000000;
+                    p_epp := 2; p_ppy := 12; p_max := 5 |};
+     s_period := Some 0; s_skipped := Some 0; s_module := 0; s_root := RMod gov_account |}.
+
+Lemma gov_blocked_refuted BL :
+  blocked BL (RMod gov_account) = true ->
+  exists s e, operable (s_root s) = true /\ Consistent s e /\ dist_ok (s_params s) /\ poly_unit (s_params s) /\
+    s_module s = 0 /\
+    let x := snd (after_epoch_end BL false s true e) in
+    let s1 := fst (after_epoch_end BL false s true e) in
+    let x2 := snd (after_epoch_end BL false s1 true (e + 1)) in
+    0 < o_minted x /\ o_staking x + o_community x + o_strategic x < o_minted x /\ 0 < o_module x /\
+    o_period x2 = 0 /\ sched_period (s_params s) 2 = 1 /\
+    o_minted x2 + o_minted x = o_module x2 + o_staking x + o_community x + o_staking x2 + o_community x2.
+Proof.
+  intro Hb. exists gov_root_state, 1.
+  split; [reflexivity|]. split; [vm_compute; repeat split; try discriminate; auto|].
+  split; [vm_compute; repeat split; discriminate|]. split.
+  { intros per Hper. change (p_max (s_params gov_root_state)) with 5 in Hper.
+    assert (per = 0 \/ per = 1 \/ per = 2 \/ per = 3 \/ per = 4) as [->|[->|[->|[->| ->]]]] by lia;
+      vm_compute; discriminate. }
+  split; [reflexivity|].
+  assert (E1 : after_epoch_end BL false gov_root_state true 1 = epoch_end false false gov_root_state true 1).
+  { unfold after_epoch_end. cbn [s_root gov_root_state]. rewrite Hb. reflexivity. }
+  rewrite E1.
+  set (s1 := fst (epoch_end false false gov_root_state true 1)).
+  assert (Hr : s_root s1 = RMod gov_account) by (vm_compute; reflexivity).
+  assert (E2 : after_epoch_end BL false s1 true (1 + 1) = epoch_end false false s1 true 2).
+  { unfold after_epoch_end. rewrite Hr, Hb. reflexivity. }
+  cbv zeta. rewrite E2. vm_compute. repeat split; reflexivity.
+Qed.
+
+(** non-vacuity of the enlarged history class: the root is handed to governance, inflation is switched on, the
+    root goes to another ordinary account and back — all inside [hist_ok] *)
+Definition ex_root_ops : list op :=
+  [EpochEnd true 1; ChangeRoot true (RMod gov_account); Toggle true true; EpochEnd true 2; EpochEnd true 3;
+   ChangeRoot false (RMod "distribution"%string); ChangeRoot true (RAcct 1); EpochEnd true 4;
+   ChangeRoot true (RMod gov_account); EpochEnd true 5].
+
+Example ex_root_hist_ok : hist_ok 30 96 (s_params genesis_state) 0 1 ex_root_ops.
+Proof. apply hist_okb_sound. vm_compute. reflexivity. Qed.
+
+(** the same history on a wiring that lets governance receive (strategic share every enabled epoch) and on one that
+    blocks it (nothing while governance is the root, the shares pile up in the module account — 216262005538, then
+    432524011076 — and are swept to the next ordinary root: 648786016614 = 3 shares) *)
+Example ex_root_strategic :
+  map o_strategic (snd (run [] true genesis_state ex_root_ops)) =
+  [0; 0; 0; 216262005538; 216262005538; 0; 0; 216262005538; 0; 216262005538] /\
+  map (fun x => (o_strategic x, o_module x)) (snd (run [gov_account] true genesis_state ex_root_ops)) =
+  [(0, 0); (0, 0); (0, 0); (0, 216262005538); (0, 432524011076); (0, 432524011076); (0, 432524011076);
+   (648786016614, 0); (0, 0); (0, 216262005538)].
+Proof. vm_compute. split; reflexivity. Qed.
